@@ -140,6 +140,9 @@ pub struct NodeCfg {
     /// the node's store starts without a configuration (a freshly created, uninitialised peer:
     /// it learns everything from the first snapshot)
     pub empty_conf: bool,
+    /// a restart of this node comes with a changed configuration file: pre_vote is off from
+    /// then on (rolling restart that disables pre-vote)
+    pub pre_vote_off_on_restart: bool,
     pub group_id: u64,
 }
 
@@ -170,6 +173,7 @@ impl NodeCfg {
             split_app_store: false,
             boot: true,
             empty_conf: false,
+            pre_vote_off_on_restart: false,
             group_id: 0,
         }
     }
